@@ -36,14 +36,13 @@ ITEMS = [
                    2: dict(params='x: NInt', ret='res: bool', ensures=[('v', 'res == (x@ == b@)')])},
          ensures=[('equal_iff_same_exact_value_and_not_nan', 'r == fv_eq(rv(*self), rv(*other))')], props=P89),
     Item(id='real_partial_cmp', source=S, locator="impl<'a> PartialOrd for NNumReal<'a> / fn partial_cmp",
-         closures={1: dict(params='ord: Ordering', ret='res: Ordering', ensures=[('v', 'res == ord_reverse(ord)')]),
-                   2: dict(params='ord: Ordering', ret='res: Ordering', ensures=[('v', 'res == ord_reverse(ord)')])},
+         closures={'params:ord': dict(params='ord: Ordering', ret='res: Ordering', ensures=[('reverses', 'res == ord_reverse(ord)')])},
          ensures=[('order_by_exact_value_none_iff_nan', 'r == fv_partial_cmp(rv(*self), rv(*other))')], props=P8),
     Item(id='real_total_cmp_small_nan', source=S, locator="impl<'a> NNumReal<'a> / fn total_cmp_small_nan",
-         closures={1: dict(params='ord: Ordering', ret='res: Ordering', ensures=[('v', 'res == ord_reverse(ord)')])},
+         closures={'params:ord': dict(params='ord: Ordering', ret='res: Ordering', ensures=[('reverses', 'res == ord_reverse(ord)')])},
          ensures=[('total_order_nan_smallest', 'r == total_cmp_spec(rv(*self), rv(*other), false)')], props=P8),
     Item(id='real_total_cmp_big_nan', source=S, locator="impl<'a> NNumReal<'a> / fn total_cmp_big_nan",
-         closures={1: dict(params='ord: Ordering', ret='res: Ordering', ensures=[('v', 'res == ord_reverse(ord)')])},
+         closures={'params:ord': dict(params='ord: Ordering', ret='res: Ordering', ensures=[('reverses', 'res == ord_reverse(ord)')])},
          ensures=[('total_order_nan_largest', 'r == total_cmp_spec(rv(*self), rv(*other), true)')], props=P8),
     Item(id='project_to_reals', source=S, locator="impl<'a> NNum / fn project_to_reals",
          ensures=[('real_and_imaginary_parts', '(rv(r.0), rv(r.1)) == proj(self@)')], props=P89),
